@@ -1,6 +1,6 @@
 import OPM.Model.CmdMgr
 import OPM.Model.CmdMgrSpec
-import OPM.Lemmas.CmdMgrExcl
+import OPM.Lemmas.CmdMgrRecC
 /-!
 # C10 Stop and Restart leave no command running and start cleanly
 
@@ -9,15 +9,17 @@ command started in the run is shown as completed, failed or cancelled in the run
 Tag simulations are cleared and the ended run's id is cleared. After Restart the method runs again from its
 first line under a new run id."
 
-Model: `OPM.Model.CmdMgr` with the repair `fixes/C11-uod-cancel-paths.diff`.  Stop and Restart are resident
+Model: `OPM.Model.CmdMgr` with the repair `fixes/C11-uod-cancel-paths.diff` (committed) and, where a theorem
+says `cfg.fixStop = true`, the repair proposed in `fixes/C10-dispose-instances-on-stop.diff`.  Stop and Restart are resident
 generator commands (`internal_commands_impl.py`): phase 1 = `cancel_all_commands`, phase 2 = tracking off,
 `emit_on_stop` (simulations stop, run log reported), run id cleared, new interpreter (method re-parsed) and new
 command manager; Restart phase 3 = new run id, tracking on.
 
 Proved here for every reachable state: between phase 1 and phase 2 no instance exists and no UOD request is
-held (so phase 2 finds nothing to clean up); what phase 2 and phase 3 leave behind.  The clause about the
-conclusive states in the reported run log is evaluated (decidable predicate `concluded`) on the model for every
-generated stream and checked on the implementation by the oracle; it is not a theorem here.
+held (so phase 2 finds nothing to clean up); what phase 2 and phase 3 leave behind; with `fixStop` also:
+`uod.command_instances` is empty when Stop completes (no never-initialised instance either:
+`stop_leaves_no_instance`) and every command started in the run has a conclusive state in the run log that is
+reported (`started_commands_concluded`, from the record invariant `Rec`).
 The unchanged code violates the property: `asis_*`.
 -/
 namespace OPM.C10
@@ -99,7 +101,7 @@ theorem stop_completes (cfg : Cfg) (hfix : cfg.fixCancel = true) (ops : List Op)
     show (tick s).1 = _
     unfold tick
     simp only [hmex, loop]
-    rw [if_neg (by simp [isDone, merged]), hx, executeLife_stop_end hres hln]
+    rw [if_neg (by simp [isDone, merged]), hx, executeLife_stop_end hres hln hmex]
   have g' : Good s' := good_tick g
   have hfin : s' = resetState (lifeDone (endRun (merged s) []) l) [] := by
     rw [hs', finish_reset _ [] (by simp [lifeDone, endRun])]; rfl
@@ -137,7 +139,7 @@ theorem restart_ends_run (cfg : Cfg) (hfix : cfg.fixCancel = true) (ops : List O
     show (tick s).1 = _
     unfold tick
     simp only [hmex, loop]
-    rw [if_neg (by simp [isDone, merged]), hx, executeLife_restart_end hres hln, hpend]
+    rw [if_neg (by simp [isDone, merged]), hx, executeLife_restart_end hres hln hmex, hpend]
   have g' : Good s' := good_tick g
   have hfin : s' = resetState { endRun (merged s) [l] with resident := some ⟨.restart, 2⟩ } [l] := by
     rw [hs', finish_reset _ [l] (by simp [endRun])]; rfl
@@ -190,6 +192,67 @@ theorem restart_begins_run (cfg : Cfg) (hfix : cfg.fixCancel = true) (ops : List
   refine ⟨?_, ?_, ?_, ?_, ?_, hexe, ?_, ?_, hlive⟩ <;>
     (rw [hfin]; simp [commit, lifeDone, beginRun, merged, hq])
 
+/-! ### with `fixes/C10-dispose-instances-on-stop.diff`: the records and the instance map -/
+
+theorem reach_rec (cfg : Cfg) (hfix : cfg.fixCancel = true) (hS : cfg.fixStop = true) (hI : cfg.fixInstr = true)
+    (ops : List Op) : Rec (reach cfg ops) :=
+  rec_run (good_init cfg hfix) (rec_init cfg hS hI) ops
+
+/-- **Every started command is concluded in the reported run log.** Whenever Stop / Restart waits for its second
+phase, every record of the run that has a Started state has a Completed, Failed or Cancelled state — and these
+records are what the second phase hands to the `on_stop` listeners (`stop_completes`, `restart_ends_run`:
+`stopLog = stopLog ++ [track]`). -/
+theorem started_commands_concluded (cfg : Cfg) (hfix : cfg.fixCancel = true) (hS : cfg.fixStop = true)
+    (hI : cfg.fixInstr = true) (ops : List Op) (n : Name) (h : (reach cfg ops).resident = some ⟨n, 1⟩) :
+    concluded (reach cfg ops).track = true := by
+  have g := reach_good cfg hfix ops
+  have r := reach_rec cfg hfix hS hI ops
+  obtain ⟨l, _, hex, _, hlu, _⟩ := resident_alone g h
+  simp only [concluded, List.all_eq_true, Bool.or_eq_true, Bool.not_eq_true']
+  intro t ht
+  cases hst : t.hasMark .started with
+  | false => exact Or.inl rfl
+  | true =>
+    right
+    cases hc : t.concluded with
+    | true => exact hc
+    | false =>
+      obtain ⟨q, hq, _, hu, _⟩ := r.held t ht hst hc
+      rw [hex] at hq
+      simp at hq
+      subst hq
+      rw [hlu] at hu; cases hu
+
+/-- **Stop leaves no instance.** After the tick of Stop's second phase `uod.command_instances` is empty: no
+initialised instance (`liveObjs`) and no never-initialised one (`stale`); the run log that was reported is the
+run's records, all started commands concluded. -/
+theorem stop_leaves_no_instance (cfg : Cfg) (hfix : cfg.fixCancel = true) (hS : cfg.fixStop = true)
+    (hI : cfg.fixInstr = true) (ops : List Op) (h : (reach cfg ops).resident = some ⟨.stop, 1⟩) :
+    let s := reach cfg ops
+    let s' := (tick s).1
+    liveObjs s' = [] ∧ s'.stale = [] ∧ s'.stopLog = s.stopLog ++ [s.track] ∧ concluded s.track = true := by
+  intro s s'
+  have hc := stop_completes cfg hfix ops h
+  have hr : Rec s' := rec_tick (reach_good cfg hfix ops) (reach_rec cfg hfix hS hI ops)
+  exact ⟨hc.2.2.2.2.2.2.2.2.2.2.2, hr.stale, hc.2.2.2.2.2.1, started_commands_concluded cfg hfix hS hI ops .stop h⟩
+
+/-- The same for Restart's second phase. -/
+theorem restart_leaves_no_instance (cfg : Cfg) (hfix : cfg.fixCancel = true) (hS : cfg.fixStop = true)
+    (hI : cfg.fixInstr = true) (ops : List Op) (h : (reach cfg ops).resident = some ⟨.restart, 1⟩) :
+    let s := reach cfg ops
+    let s' := (tick s).1
+    liveObjs s' = [] ∧ s'.stale = [] ∧ s'.stopLog = s.stopLog ++ [s.track] ∧ concluded s.track = true := by
+  intro s s'
+  have hc := restart_ends_run cfg hfix ops h
+  have hr : Rec s' := rec_tick (reach_good cfg hfix ops) (reach_rec cfg hfix hS hI ops)
+  exact ⟨hc.2.2.2.2.2.2.2.2.2.2.2, hr.stale, hc.2.2.2.2.2.1,
+    started_commands_concluded cfg hfix hS hI ops .restart h⟩
+
+/-- In no reachable state is a never-initialised instance kept. -/
+theorem no_uninitialised_instance (cfg : Cfg) (hfix : cfg.fixCancel = true) (hS : cfg.fixStop = true)
+    (hI : cfg.fixInstr = true) (ops : List Op) : (reach cfg ops).stale = [] :=
+  (reach_rec cfg hfix hS hI ops).stale
+
 /-- Non-vacuity and end-to-end: a method-like history (two commands, one long, a simulation), Stop, three
 ticks: everything is finalized, the reported run log shows both commands concluded. -/
 example :
@@ -215,10 +278,16 @@ example :
 /-- What Stop does *not* clean up (the code as it is; recorded finding): an instance that was created for a
 request with rejected arguments and never initialised stays in `uod.command_instances` across Stop when no
 request of that name is left to cancel.  It has had no callback (`objs` is empty), it just occupies the name. -/
-example :
-    let cfg : Cfg := { cmds := [⟨6, none⟩] }
+theorem asis_uninitialised_instance_survives_stop :
+    let cfg : Cfg := { cmds := [⟨6, none⟩], fixStop := false }
     let s := reach cfg [.user .start, .tick, .req 0 true, .tick, .user .stop, .tick, .tick]
     s.started = false ∧ s.stale = [(0, 1)] ∧ s.objs = [] ∧ s.events = [] := by decide +kernel
+
+/-- …with `fixes/C10-dispose-instances-on-stop.diff` (`fixStop`) nothing is left. -/
+theorem fixed_rejected_arguments :
+    let cfg : Cfg := { cmds := [⟨6, none⟩] }
+    let s := reach cfg [.user .start, .tick, .req 0 true, .tick, .user .stop, .tick, .tick]
+    s.started = false ∧ s.stale = [] ∧ s.objs = [] ∧ s.events = [] := by decide +kernel
 
 /-! ### The unchanged code -/
 
@@ -226,7 +295,7 @@ example :
 Stop's clean-up and survives the stop: the instance is still there when the run is over, it is never finalized,
 and the reported run log shows it as started. -/
 theorem asis_instance_survives_stop :
-    let cfg : Cfg := { cmds := [⟨6, none⟩], fixCancel := false }
+    let cfg : Cfg := { cmds := [⟨6, none⟩], fixCancel := false, fixStop := false }
     let s := reach cfg [.user .start, .tick, .req 0, .user .stop, .tick, .tick]
     s.started = false ∧ (liveObjs s).map (·.name) = [0] ∧ s.stopLog.map concluded = [false] := by
   decide +kernel
